@@ -454,7 +454,16 @@ class Executor:
         raise Unsupported(f"constant {v!r}")
 
     def ev_Name(self, st, e):
-        return [Path(st, "normal", self.load_name(st, e.id, e))]
+        try:
+            return [Path(st, "normal", self.load_name(st, e.id, e))]
+        except Unsupported:
+            # a local of the function under verification (a name the function assigns somewhere) read before it is bound: Python
+            # raises UnboundLocalError here - this is behaviour of the code, not a gap of the generator
+            fn = getattr(self, "fn_node", None)
+            if fn is not None and any(isinstance(n, ast.Name) and n.id == e.id and isinstance(n.ctx, ast.Store) for n in ast.walk(fn)) \
+                    and not any(isinstance(n, (ast.Global, ast.Nonlocal)) and e.id in n.names for n in ast.walk(fn)):
+                return [Path(st, "raise", ExcVal(PyConst(UnboundLocalError), tag=f"local {e.id} read before assignment"))]
+            raise
 
     def ev_Tuple(self, st, e):
         outs, raised = self.ev_list(st, e.elts)
